@@ -121,12 +121,17 @@ def plan_arith(pid, tier, seed):
         dict(name="wide", profile="unchecked", bin="arith", dom="big", per_shard=6000,
              args=["--topic", ops, "--widths", "16,32,64,128", "--big", "--tier", "quick", "--seed", str(seed), "--n", n]),
     ]
+    # the same wide layouts once more under debug assertions + overflow checks (other random pairs: seed + 1): "no form panics" and
+    # the exact results are claimed for every build profile; the plain operator may panic there only where R does not fit
+    gens.append(dict(name="widec", profile="checked", bin="arith", dom="big", per_shard=6000,
+                     args=["--topic", ops, "--widths", "16,32,64,128", "--big", "--tier", "quick", "--seed", str(seed + 1),
+                           "--n", str(int(n) // 4)]))
     # light sweep over ALL 488 layouts wider than 8 bits (every fractional-bit count 0..=width, both signs)
     gens.append(dict(name="sweep", profile="unchecked", bin="sweep", dom="big", per_shard=5000,
                      args=["--topic", ops, "--big", "--seed", str(seed), "--n", {"C01": "60", "C02": "24", "C06": "30", "C07": "30"}[pid]
                            if tier == "quick" else "400"]))
     return dict(
-        bins=["arith", "sweep"], profiles=["unchecked"], gens=gens, designs=[],
+        bins=["arith", "sweep"], profiles=["unchecked", "checked"], gens=gens, designs=[],
         nontrivial=nontrivial_arith,
         rule="8-bit layouts (all 18): every operand pair (thorough) or a 1/8 stratified subset plus the pairwise "
              "boundary lattice (quick), every value for unary operations; 16/32/64/128-bit layouts (22 per width: "
